@@ -38,6 +38,18 @@ def _structs(ds):
     return [C08._struct(m) for m in ds.mazes]
 
 
+def _quiet(fn):
+    """the same call with what it prints (progress bars, log lines of verbose=True) sent nowhere"""
+    import contextlib
+    import os
+
+    def inner(*a, **kw):
+        with open(os.devnull, "w") as null, contextlib.redirect_stdout(null), contextlib.redirect_stderr(null):
+            return fn(*a, **kw)
+
+    return inner
+
+
 def _generate(spec, cfg=None):
     from maze_dataset import MazeDataset
 
@@ -95,8 +107,12 @@ def check(case: dict):
     from maze_dataset import MazeDataset
 
     spec = case["target"]
-    cfg = L.make_cfg(spec)
+    # the reference comes from a configuration object constructed in one go; the observation below may use an object that reached the
+    # same content through in-place edits after it had been looked at (spec["built"], see lib.make_cfg) - the dataset is a function of
+    # the configuration, not of how the object came to hold it
+    cfg = L.make_cfg({k: v for k, v in spec.items() if k != "built"})
     fields0 = L.cfg_fields(cfg)
+    vb = {"verbose": True} if case.get("verbose") else {}  # an option of the call that is not part of the configuration
     try:
         ref_ds = MazeDataset.generate(cfg)
     except ValueError as e:
@@ -112,9 +128,9 @@ def check(case: dict):
     filters_obj = cfg2.applied_filters
     filters_copy = [dict(f) for f in cfg2.applied_filters]
     route = case.get("route", "generate")
-    labels = [route, spec["ctor"]] + sorted({op["op"] for op in case["history"]})
+    labels = [route, spec["ctor"]] + sorted({op["op"] for op in case["history"]}) + (["config-edited-in-place"] if spec.get("built") and cfg2 is not cfg else []) + (["verbose"] if vb else [])
     if route == "generate":
-        obs = call("C04:generate", MazeDataset.generate, cfg2)
+        obs = call("C04:generate", _quiet(MazeDataset.generate), cfg2, **vb)
         got = _structs(obs)
         require(got == ref, "C04:generate:not-reproducible",
                 f"second generation differs from the first in {sum(1 for a, b in zip(got, ref) if a != b)} of {len(ref)} mazes after history {[o['op'] for o in case['history']]}; spec={spec}")
@@ -137,7 +153,7 @@ def check(case: dict):
         applied, _, _, hand, final_items = C08.run_sequence(ref_ds, items, ops, sig="C04:by-hand")
         if applied != len(ops):
             raise Discard()
-        obs = call("C04:from_config", MazeDataset.from_config, cfg2, load_local=False, save_local=False, do_download=False)
+        obs = call("C04:from_config", _quiet(MazeDataset.from_config), cfg2, load_local=False, save_local=False, do_download=False, **vb)
         got = _structs(obs)
         want = [C08._item_struct(it) for it in final_items]
         require(got == want, "C04:from_config:not-generate-plus-filters",
@@ -206,7 +222,10 @@ def _case(draw, maxlen):
                 else:
                     v["name"] = v["name"] + "2"
                 op["spec"] = v
-    return {"target": target, "history": hist, "route": route, "fresh_cfg": draw(st.booleans())}
+    case = {"target": target, "history": hist, "route": route, "fresh_cfg": draw(st.booleans())}
+    if draw(st.integers(0, 3)) == 0:
+        case["verbose"] = True
+    return case
 
 
 _SUBPROC = r"""
